@@ -10,7 +10,7 @@ trusted = [
   "`(a..b).find(|&i| pred(data[i]))` and `data[a..].iter().take_while(|&&b| b == b' ').count()` replaced by stubs with the documented meaning of the std iterator adapters",
   "avx2_enabled() (cpuid + SUCCINCTLY_SIMD clamp): arbitrary boolean",
   "vstd specification of u32::trailing_zeros",
-  "parse_anchor_name and find_block_scalar_end kernels are NOT in this unit (bounded Kani evidence only)",
+  "find_block_scalar_end kernels are NOT in this unit (bounded Kani evidence only)",
 ]
 spec = ''' + "'''" + r'''
 global size_of usize == 8;
@@ -129,7 +129,7 @@ pub proof fn lemma_or_lane(a: u8, b: u8)
 {
     assert((a == 0xFFu8 || a == 0u8) && (b == 0xFFu8 || b == 0u8) ==> (((a | b) >= 0x80u8) == (a == 0xFFu8 || b == 0xFFu8))) by (bit_vector);
 }
-''' + "'''\n"
+''' + open('/verif/tools/c16_anchor_spec.rs').read() + "'''\n"
 
 COMMON_REWRITES = r'''[[item.rewrite]]
 rule = "U1"
@@ -275,4 +275,5 @@ tails = "offset + data[offset..].iter().take_while(|&&b| b == b' ').count()"
 items += kernel("count_leading_spaces_avx2", 3, "avx2", False, tails, "offset + count_spaces_from(data, offset)", SP, [("space_vec_sse", 0x20)])
 items += kernel("count_leading_spaces_sse2", 3, "sse2", False, tails, "offset + count_spaces_from(data, offset)", SP)
 items += dispatcher("count_leading_spaces_x86", 3, False)
+items += open("/verif/tools/c16_anchor_items.toml").read()
 open("/verif/verus/c16_kernels.toml", "w").write("# GENERATED by tools/gen_c16.py\n" + HEAD + items)
